@@ -38,7 +38,7 @@ function in both scenes), isotropic damping.
 
 Sibling order (second half of this file): only partial results — the leaves→root scans, the ancestor walk and
 **the mass matrix** of a relabelled system (`reverse_scan_sibling_permutation`, `ancestors_sibling_permutation`,
-`generalized_massMatrix_sibling_order_partial`); the whole relabelled step is NOT proved (what is missing is listed
+`generalized_massMatrix_sibling_order_partial`); the whole relabelled step is proved in `Props/C05GenPerm2.lean` (`generalized_step_sibling_order`; what was missing here is listed
 there and in `notes/C05-deepen-genperm.md`).  Whole trajectories of a union: not stated (the step theorem's
 output state is again `pipeline.init` of the new coordinates, `generalized_step_components_state`).
 -/
@@ -228,7 +228,7 @@ example : ComShape exSys.types (dynInit exSys [0, 0, 1, 1, 0, 0, 0, 0.3] [0, 0, 
 
 /-! ## sibling order for the generalized step — partial results
 
-Full statement (NOT proved; kept as a comment):
+Full statement (proved later as `generalized_step_sibling_order` in `Props/C05GenPerm2.lean`; kept as a comment):
 ```
 -- for `Relabel σ τ s s'` / `DofsRelabel σ s s'` with parents before children in both numberings,
 -- `q'`, `qd'`, `act`-ids, `qfc'` the blockwise permutations of `q`, `qd`, …, and an exact + unique solve:
